@@ -84,20 +84,12 @@ def constraintToks (vc : VC) : List RNode :=
   vc.display.map fun c =>
     .tok (if c = '>' then .R_ANGLE else if c = '<' then .L_ANGLE else .EQUAL) [c]
 
-/-- Rust `str::split_once(c)` -/
-def splitOnce (sep : Char) : Str → Option (Str × Str)
-  | [] => none
-  | c :: cs =>
-    if c = sep then some ([], cs)
-    else match splitOnce sep cs with
-      | none => none
-      | some r => some (c :: r.1, r.2)
-
-/-- `version_tokens`: `IDENT`, or `IDENT COLON IDENT` when the version has an epoch -/
+/-- `version_tokens` (after fix 4ba50b0): `IDENT`, or `IDENT (COLON IDENT)*` when the version has an
+    epoch — the pieces of `text.split(':')`, a COLON before every piece but the first -/
 def versionToks (v : Version) : List RNode :=
-  match v.epoch, splitOnce ':' v.display with
-  | some _, some (e, rest) => [.tok .IDENT e, .tok .COLON [':'], .tok .IDENT rest]
-  | _, _ => [.tok .IDENT v.display]
+  match v.epoch with
+  | some _ => sepBy [.tok .COLON [':']] ((Text.splitOn ':' v.display).map fun p => [.tok .IDENT p])
+  | none => [.tok .IDENT v.display]
 
 /-- `version_node` -/
 def versionNode (vc : VC) (v : Version) : RNode :=
